@@ -157,7 +157,10 @@ def audit_sequence(servers, opts=('-n', '--skip-rate-test'), threads=1, ports=No
         lines = list(file_lines)       # the targets as the caller wants them written (e.g. without the port the -p option supplies)
     with open(path, 'w') as f:
         f.write(''.join(l + '\n' for l in lines))
-    res = runner.run_cli(list(opts) + ['-T', path, '--threads', str(threads)], w)
+    # under the gate scheduler (default, non-preemptive schedule): with free-running worker threads the order in which the tool
+    # collects and prints finished targets would depend on OS scheduling
+    from . import sched as _sched
+    res, _s = _sched.run_scheduled(runner.run_cli, list(opts) + ['-T', path, '--threads', str(threads)], w, (), ('connect',))
     outs = None
     if '-j' in opts or '-jj' in opts:
         try:
